@@ -571,6 +571,22 @@ class LocalVarsVisitor(ast.NodeVisitor):
             self.vars.add(node.id)
         self.generic_visit(node)
 
+    def visit_arg(self, node: ast.arg) -> Any:
+        # The parameters of a lambda or of a nested function are local names too. Without this they are looked
+        # up as modules on sys.path (a file called row.py changes the signature of 'lambda row: ...').
+        self.vars.add(node.arg)
+        self.generic_visit(node)
+
+    def visit_ExceptHandler(self, node: ast.ExceptHandler) -> Any:
+        if node.name:
+            self.vars.add(node.name)
+        self.generic_visit(node)
+
+    def visit_FunctionDef(self, node: ast.FunctionDef) -> Any:
+        # A function defined inside the body is bound to a local name.
+        self.vars.add(node.name)
+        self.generic_visit(node)
+
 
 def _function_name(node: ast.AST) -> List[str]:
     if isinstance(node, ast.Name):
